@@ -161,7 +161,7 @@ def _probe_silent_paths(d):
     return [(slot, wanted) for _, _, slot, rows in loops for lookups, wanted in rows if not lookups]
 
 
-def rule_probe(ctx, sym=None, floor=40):
+def rule_probe(ctx, sym=None, floor=150):
     sym = sym or Sym(ctx)
     r = Rule('C31-PROBE', 'a key / keyword / positional attribute named by a mapping or class pattern is looked up on the subject whether or not its value is wanted: a wildcard '
              'sub-pattern only drops the sub-subject (NULL slot / no temp), never the lookup — presence of the key / attribute is the test, and the getter is an observable call', floor)
@@ -334,6 +334,50 @@ def _probe_python(r, sym):
                         '(with a NULL slot) — its presence in the subject is part of the test' % (what, len(ka) if isinstance(ka, list) else '?', len(sa_) if isinstance(sa_, list) else '?', ints, nk))
                 elif not all(any(k is k0 for k in ka) for k0 in keys):
                     bad(key + ':which', f_cmp.lineno, '%s: the key array does not hold every key of the pattern' % what)
+    # ---- sequence patterns: a wildcard / capture element needs no test of its own, but it still counts for the length the subject must have
+    c = sym.cls('MatchSequencePatternNode')
+    f_assign = sym.method(c, 'create_main_pattern_assignment_list')[1]
+    f_cmp = sym.method(c, 'get_comparison_node')[1]
+    star_cls = sym.cls('MatchAndAssignPatternNode')
+    for n in (1, 2, 3):
+        for star in [None] + list(range(n)):
+            for kinds in itertools.product('pc_', repeat=n):
+                if star is not None and kinds[star] == 'p':
+                    continue                                    # a starred element is a capture or a wildcard
+                if all(k == 'p' for i, k in enumerate(kinds) if i != star) and (star is None or kinds[star] == 'c'):
+                    continue                                    # nothing irrefutable besides a plain `*rest`: C31-SEQ
+                recs = []
+                for i, k in enumerate(kinds):
+                    rec = Rec('e%d' % i) if k == 'p' else Rec('e%d' % i, irrefutable=True) if k == 'c' else Rec('e%d' % i, targets=set(), irrefutable=True)
+                    if k != 'p':
+                        rec.ns.__dict__.update(is_match_and_assign_pattern=True, _ctor='MatchAndAssignPatternNode', _cls=star_cls)
+                    if i == star:
+                        rec.ns.__dict__.update(is_star=True)
+                    recs.append(rec)
+                o = sym.obj(c, pos='POS', patterns=[x.ns for x in recs], as_targets=[], length_temp=NS('length_temp', _ctor='LengthTemp'))
+                shape = ''.join(('*' if i == star else '') + k for i, k in enumerate(kinds))
+                what = 'sequence pattern [%s]' % ', '.join(('*' if i == star else '') + {'p': 'p%d' % i, 'c': 'name%d' % i, '_': '_'}[k] for i, k in enumerate(kinds))
+                subj = subject_mock(sym)
+                sym.run('MatchSequencePatternNode.create_main_pattern_assignment_list', f_assign, [o, subj, NS('env', directives={})])
+                cmp_ = sym.run('MatchSequencePatternNode.get_comparison_node', f_cmp, [o, subj, None])
+                tests = []
+                for x in walk_ns(cmp_):
+                    if ctor_is(x, 'PrimaryCmpNode') and any(ctor_is(y, 'NameNode') and y.__dict__.get('name') == 'len' for y in walk_ns(x.__dict__.get('operand1'))):
+                        c2 = x.__dict__.get('operand2')
+                        tests.append((x.__dict__.get('operator'), c2.__dict__.get('value') if isinstance(c2, NS) else None))
+                key = '%s.MatchSequencePatternNode:length-counts-wildcards' % MOD
+                r.inst('%s:%s' % (key, shape), sample='%s: length tests %s' % (what, tests))
+                if any(op not in S.CMP or not isinstance(v, int) for op, v in tests):
+                    bad(key + ':shape', f_cmp.lineno, '%s: the length test %s is not a comparison of len(subject) with a constant' % (what, tests))
+                    continue
+                for L in range(0, n + 3):
+                    got = all(S.CMP[op](L, v) for op, v in tests)
+                    want = (L >= n - 1) if star is not None else (L == n)
+                    if got != want:
+                        bad(key, f_cmp.lineno, '%s: a subject of length %d is %s by the length test %s; CPython %s it (needs %s) — elements matched by a wildcard or a capture need no test '
+                            'of their own but still count for the length' % (what, L, 'accepted' if got else 'rejected', ' and '.join('len %s %d' % t for t in tests) or '(none)',
+                                                                             'accepts' if want else 'rejects', 'len >= %d' % (n - 1) if star is not None else 'len == %d' % n))
+                        break
     for key, (line, msg) in sorted(seen.items()):
         r.violate(key, sym.m.rel, line, msg)
 
@@ -350,7 +394,7 @@ class TypeTests:
     None (not a type test / not resolvable); __Pyx_ names are resolved through their macro / inline definitions in the utility catalogue, all #if variants"""
 
     def __init__(self, ctx):
-        self.ctx, self.memo, self.why = ctx, {}, {}
+        self.ctx, self.memo, self.why, self.facts = ctx, {}, {}, {}
 
     def of_name(self, name, depth=0):
         if name in self.memo:
@@ -425,6 +469,11 @@ class TypeTests:
 
     def of_fact(self, text):
         """fact text of the explorer -> (object identifier, predicate text, kind) or None"""
+        if text not in self.facts:
+            self.facts[text] = self._of_fact(text)
+        return self.facts[text]
+
+    def _of_fact(self, text):
         try:
             e = P._strip(P._parse(text))
         except _cx.ParseError:
@@ -525,7 +574,7 @@ def exact_obligations(d, tt, need):
     return out, notes
 
 
-def rule_exact(ctx, floor=3):
+def rule_exact(ctx, floor=4):
     r = Rule('C31-EXACT', 'a type test of a helper parameter (the subject) that selects the path on which the parameter is handed to the concrete-layout C-API (PyDict_*, PyList_*, '
              'PyTuple_*, PySet_*; directly or through another MatchCase.c helper) is an EXACT type test in every #if variant of its definition: for instances of subclasses these '
              'functions bypass the overridable methods (get, __len__, __getitem__, keys) CPython\'s match statement calls', floor)
